@@ -7,14 +7,20 @@
     c14 crypt <key> <iv> <input>                         -> hex | panic    (crypt)
     c14 pkg <salt> <key> <data>                          -> <len> <sha512> | panic   (crypt_package)
     c14 save <method> <pw> <size> <seed>                 -> ok             (the model never fails)
-    c14 decrypt <pw> <info> <pkg> <expect>               -> ok <len> <sha512> | fail <stage>
-                                                            (Spec: Agile.parseInfo + Agile.decrypt)
+    c14 decrypt <pw> <info> <pkg> <expect>               -> (ok <len> <sha512> | fail <stage>) text=<same|differs@k> wf=<ok|no> scan=<same|differs>
+                                                            (Spec: Agile.parseInfo + Agile.decrypt = Agile.decryptFile on the two streams;
+                                                             text: the real EncryptionInfo stream equals, byte for byte, the prefix followed by
+                                                             `renderDoc` of the writer-call tree `infoW` of the descriptor read from it;
+                                                             wf: `infoPlain` = the hypothesis `InfoWF` of `C14_info_parses` holds of that descriptor;
+                                                             scan: the text scanner `scanInfo` reads the same descriptor as the XML reader;
+                                                             `fail parse` carries no suffix)
     c14 encrypt <pw> <data> <pkgKey> <pkgSalt> <keySalt> <hmacKey> <verifierInput>
                                                          -> ok pkg=<sha512> fields=<canonical> rt=<ok|bad> ## info=<sha512>
                                                             (Model: encrypt + build_encryption_info)
 -/
 import Umya.Model.PrimsExec
 import Umya.Model.Crypt
+import Umya.Model.AgileInfoW
 import Umya.Spec.Agile
 import Umya.Driver.Proto
 namespace Umya.Driver.C14
@@ -39,20 +45,38 @@ def canon (i : Info) : String :=
   s!"encryptedVerifierHashValue={String.ofList i.encryptedVerifierHashValue}," ++
   s!"encryptedKeyValue={String.ofList i.encryptedKeyValue}"
 
+/-- first position where two byte strings differ -/
+def firstDiff : Nat → Bytes → Bytes → Option Nat
+  | _, [], [] => none
+  | k, a :: x, b :: y => if a = b then firstDiff (k + 1) x y else some k
+  | k, _, _ => some k
+
+/-- the tie of `C14_info_parses` / `C14_info_text_is_writer_calls` on a real stream and the descriptor read from it -/
+def infoChecks (info : Bytes) (i : Info) : String :=
+  let text := match firstDiff 0 (infoStreamW i) info with
+    | none => "same"
+    | some k => s!"differs@{k}"
+  let wf := if infoPlain i then "ok" else "no"
+  let scan := if Umya.Spec.Agile.scanInfo info == some i then "same" else "differs"
+  s!" text={text} wf={wf} scan={scan}"
+
+def decryptStages (pw : List Char) (i : Info) (pkg : Bytes) : String :=
+  match Umya.Spec.Agile.verifyPassword P i pw with
+  | none => "fail verifier"
+  | some hn =>
+    match Umya.Spec.Agile.packageKey P i hn with
+    | none => "fail key"
+    | some pk =>
+      if !Umya.Spec.Agile.integrityOk P i pk pkg then "fail hmac"
+      else match Umya.Spec.Agile.decryptData P i pk pkg with   -- = `Agile.decrypt P i pkg pw` at this point
+        | none => "fail data"
+        | some plain => s!"ok {plain.length} {hex (P.sha512 plain)}"
+
+/-- `Agile.decryptFile` on the two streams, stage by stage, then the checks on the EncryptionInfo stream -/
 def decryptLine (pw : List Char) (info pkg : Bytes) : String :=
   match Umya.Spec.Agile.parseInfo info with
   | none => "fail parse"
-  | some i =>
-    match Umya.Spec.Agile.verifyPassword P i pw with
-    | none => "fail verifier"
-    | some hn =>
-      match Umya.Spec.Agile.packageKey P i hn with
-      | none => "fail key"
-      | some pk =>
-        if !Umya.Spec.Agile.integrityOk P i pk pkg then "fail hmac"
-        else match Umya.Spec.Agile.decryptData P i pk pkg with   -- = `Agile.decrypt P i pkg pw` at this point
-          | none => "fail data"
-          | some plain => s!"ok {plain.length} {hex (P.sha512 plain)}"
+  | some i => decryptStages pw i pkg ++ infoChecks info i
 
 def handle (args : List String) : String :=
   match args with
@@ -89,7 +113,8 @@ def handle (args : List String) : String :=
        | none => "panic"
        | some (info, pkg) =>
          let bytes := buildEncryptionInfo info
-         let rt := if Umya.Spec.Agile.parseInfo bytes == some info then "ok" else "bad"
+         let rt := if Umya.Spec.Agile.parseInfo bytes == some info && Umya.Spec.Agile.scanInfo bytes == some info &&
+                      infoPlain info && infoStreamW info == bytes then "ok" else "bad"
          s!"ok pkg={hex (P.sha512 pkg)} fields={canon info} rt={rt} ## info={hex (P.sha512 bytes)}")
     | _, _, _, _, _, _, _ => "bad-op"
   | _ => "bad-op"
